@@ -1,0 +1,185 @@
+// Copyright 2017 Pilosa Corp.
+//
+// Licensed under the Apache License, Version 2.0 (the "License");
+// you may not use this file except in compliance with the License.
+// You may obtain a copy of the License at
+//
+//     http://www.apache.org/licenses/LICENSE-2.0
+//
+// Unless required by applicable law or agreed to in writing, software
+// distributed under the License is distributed on an "AS IS" BASIS,
+// WITHOUT WARRANTIES OR CONDITIONS OF ANY KIND, either express or implied.
+// See the License for the specific language governing permissions and
+// limitations under the License.
+
+//go:build verif
+// +build verif
+
+package pilosa
+
+import (
+	"sort"
+	"time"
+)
+
+// Export shims for the verification harness (/verif, property C22): a real coordinator
+// `cluster` with an injected broadcaster and hasher, driven by the same entry points the
+// server uses (ReceiveEvent, API.RemoveNode, markResizeInstructionComplete, API.ResizeAbort).
+// Add-only, tag-guarded.
+
+// VerifC22Send is called for every message the coordinator sends to another node.
+// kind is "status" (ClusterStatus), "instruction" (ResizeInstruction) or "other".
+type VerifC22Send func(toID, kind string, jobID int64, state string) error
+
+type verifC22Bcast struct{ send VerifC22Send }
+
+func (b verifC22Bcast) SendSync(m Message) error  { return nil }
+func (b verifC22Bcast) SendAsync(m Message) error { return nil }
+func (b verifC22Bcast) SendTo(to *Node, m Message) error {
+	switch obj := m.(type) {
+	case *ClusterStatus:
+		return b.send(to.ID, "status", 0, obj.State)
+	case *ResizeInstruction:
+		return b.send(to.ID, "instruction", obj.JobID, "")
+	}
+	return b.send(to.ID, "other", 0, "")
+}
+
+// VerifC22Cluster wraps a coordinator cluster.
+type VerifC22Cluster struct {
+	c   *cluster
+	api *API
+}
+
+func verifC22Node(id string, coord bool) *Node {
+	return &Node{ID: id, URI: URI{Scheme: "http", Host: "host-" + id, Port: 1}, IsCoordinator: coord, State: nodeStateReady}
+}
+
+// VerifC22New builds a coordinator (ids[0]) whose member list is ids, in state NORMAL, over an
+// open holder, and starts its listenForJoins loop.
+func VerifC22New(path string, h *Holder, ids []string, hasher Hasher, partitionN int, send VerifC22Send) (*VerifC22Cluster, error) {
+	c := newCluster()
+	c.Path = path
+	c.Topology = newTopology()
+	c.holder = h
+	c.Node = verifC22Node(ids[0], true)
+	c.Coordinator = ids[0]
+	c.Hasher = hasher
+	c.partitionN = partitionN
+	c.ReplicaN = 1
+	c.broadcaster = verifC22Bcast{send: send}
+	for i, id := range ids {
+		n := c.Node
+		if i > 0 {
+			n = verifC22Node(id, false)
+		}
+		if err := c.addNode(n); err != nil {
+			return nil, err
+		}
+	}
+	c.state = ClusterStateNormal
+	c.listenForJoins()
+	return &VerifC22Cluster{c: c, api: &API{cluster: c, holder: h}}, nil
+}
+
+// Join delivers a NodeJoin event the way Server.receiveMessage does.
+func (v *VerifC22Cluster) Join(id string) error {
+	return v.c.ReceiveEvent(&NodeEvent{Event: NodeJoin, Node: verifC22Node(id, false)})
+}
+
+// Leave is API.RemoveNode.
+func (v *VerifC22Cluster) Leave(id string) error {
+	_, err := v.api.RemoveNode(id)
+	return err
+}
+
+// Complete delivers a ResizeInstructionComplete message.
+func (v *VerifC22Cluster) Complete(jobID int64, nodeID, errText string) error {
+	return v.c.markResizeInstructionComplete(&ResizeInstructionComplete{JobID: jobID, Node: verifC22Node(nodeID, false), Error: errText})
+}
+
+// Abort is API.ResizeAbort.
+func (v *VerifC22Cluster) Abort() error { return v.api.ResizeAbort() }
+
+// IsNotAllowed reports whether err is the state gate's refusal.
+func (v *VerifC22Cluster) IsNotAllowed(err error) bool { return VerifC23IsNotAllowed(err) }
+
+// Partition exposes cluster.partition.
+func (v *VerifC22Cluster) Partition(index string, shard uint64) int {
+	return v.c.partition(index, shard)
+}
+
+// Shutdown signals the listener to stop without waiting for it (it may be parked for good).
+func (v *VerifC22Cluster) Shutdown() {
+	defer func() { _ = recover() }()
+	close(v.c.closing)
+}
+
+// VerifC22Job is the observable part of a resize job.
+type VerifC22Job struct {
+	ID      int64
+	Action  string
+	State   string
+	Pending []string // node ids still false in IDs
+	Done    []string // node ids true in IDs
+	Locked  bool     // the job's mutex could not be taken
+}
+
+// VerifC22Snapshot is what the harness compares with the model.
+type VerifC22Snapshot struct {
+	Locked  bool // cluster mutex could not be taken within the timeout
+	State   string
+	Nodes   []string
+	Current int64 // 0 = no current job
+	HasCur  bool
+	Queue   int
+	Jobs    []VerifC22Job
+}
+
+func verifTry(try func() bool, timeout time.Duration) bool {
+	deadline := time.Now().Add(timeout)
+	for {
+		if try() {
+			return true
+		}
+		if time.Now().After(deadline) {
+			return false
+		}
+		time.Sleep(200 * time.Microsecond)
+	}
+}
+
+// Snapshot reads the cluster under its read lock (TryRLock with a timeout, so that a cluster
+// whose mutex is held for good is reported instead of hanging the harness).
+func (v *VerifC22Cluster) Snapshot(timeout time.Duration) VerifC22Snapshot {
+	c := v.c
+	if !verifTry(c.mu.TryRLock, timeout) {
+		return VerifC22Snapshot{Locked: true}
+	}
+	defer c.mu.RUnlock()
+	s := VerifC22Snapshot{State: c.state, Nodes: c.nodeIDs(), Queue: len(c.joiningLeavingNodes)}
+	if c.currentJob != nil {
+		s.HasCur, s.Current = true, c.currentJob.ID
+	}
+	for _, j := range c.jobs {
+		vj := VerifC22Job{ID: j.ID, Action: j.action}
+		if !verifTry(j.mu.TryRLock, timeout) {
+			vj.Locked = true
+		} else {
+			vj.State = j.state
+			for id, done := range j.IDs {
+				if done {
+					vj.Done = append(vj.Done, id)
+				} else {
+					vj.Pending = append(vj.Pending, id)
+				}
+			}
+			j.mu.RUnlock()
+		}
+		sort.Strings(vj.Pending)
+		sort.Strings(vj.Done)
+		s.Jobs = append(s.Jobs, vj)
+	}
+	sort.Slice(s.Jobs, func(a, b int) bool { return s.Jobs[a].ID < s.Jobs[b].ID })
+	return s
+}
